@@ -3,7 +3,7 @@ import itertools
 import os
 
 from .. import common, tlc, traces, kernels
-from ..objects import warmup
+from ..objects import warmup, make_object
 from .c12 import SIZES, ua_json
 
 
@@ -93,9 +93,9 @@ def run(ctx):
     # (V)
     seqs = common.random_sequences(ctx.rng, ctx.pick(10, 80), ctx.pick(60, 150), 2)
     for i, seq in enumerate(seqs):
+        o, seq, how = make_object(lc, seq, ctx.rng)
         N = len(seq)
-        o = lc.SP(seq)
-        hist = warmup(o, ctx.rng) if i % 2 else []
+        hist = ([{"made": how}] if how != "direct" else []) + (warmup(o, ctx.rng) if i % 2 else [])
         ev = []
         for _ in range(ctx.pick(8, 14)):
             ctype = ctx.rng.choice(["WF", "LC", "LZW", "wf", "lzw"])
@@ -118,6 +118,21 @@ def run(ctx):
             if e:
                 ev.append(e)
                 ctx.nontrivial.add((seq[:30], ctype.upper(), int(size) if ua is None else tuple(sorted(ua.items())), int(w), int(s)))
+        # the same window and step with several user alphabets in a row (fresh dictionaries, and one edited in place)
+        w0, s0 = min(N, 6), 2
+        ua0 = {a: a for a in common.AA}
+        for rep_ in range(3):
+            reps = ctx.rng.sample(common.AA, ctx.rng.randint(2, 5))
+            ua1 = {a: ctx.rng.choice(reps) for a in common.AA}
+            for r in reps[:2]:
+                ua1[r] = r
+            e = event(ctx, lc, o, seq, "WF", 20, ua1, w0, s0, 3, need)
+            if e:
+                ev.append(e)
+            ua0[ctx.rng.choice(common.AA)] = ctx.rng.choice(reps)        # edited in place between calls
+            e = event(ctx, lc, o, seq, "WF", 20, dict(ua0) if False else ua0, w0, s0, 3, need)
+            if e:
+                ev.append(e)
         for bad_type, w in (("XX", 1), ("RHP", 1), (None, 1), ("", 1), ("W", 1), ("LZ", 1), ("L", 1), ("LC,", 1), ("WF ", 1), ("WF", N + 1), ("LC", N + 2), ("LZW", N + 3)):
             e = event(ctx, lc, o, seq, bad_type, 20, None, w, 1, 3, need)
             if e:
